@@ -61,7 +61,7 @@ def keyseq_case(r):
     """pre + special + post, spelled as alias and as raw"""
     alias = r.choice(list(PAIRS))
     raw = r.choice(PAIRS[alias])
-    pre = r.choice(["", "i", "ia", "R", "v", ":s/a", "/fo", "d", "2", "iab\\\\", "ia\\\\\\\\", "é", "x"])
+    pre = r.choice(["", "i", "ia", "R", "v", ":s/a", "/fo", "d", "2", "iab\\\\", "ia\\\\\\\\", "é", "x", "ia\\é", "i\\日", "i\\👍x"])
     post = r.choice(["", "x", "ix", "[", "O", "[D", "<esc>", "é", "~", "0", ">", "<", "\\<"])
     return alias, raw, pre, post
 
